@@ -808,6 +808,14 @@ func FixedPrograms() []*EncProgram {
 		mk("return [-0.0, 0.0, 1/(-0.0 + 1.0)]"),
 		mk("return"),
 		mk(""),
+		// failures at the very first position of the file (offset 0 = the file's base position): the
+		// position must resolve to `(main):1:1` in the decoded program too, whose file set has no
+		// cached last file
+		mk("throw \"boom\""),
+		mk("[1][5]"),
+		mk("undefined()"),
+		mk("x := undefined.a.b\nreturn x"),
+		mk("import(\"fmt\").Sprintf()", "fmt"),
 		mk("param ...args; return args"),
 		mk("f := func() { return [1][2] }\n\n  g := func() { return f() }\nreturn g()"),
 		mk(`t := import("tiny"); return [t.k, t.f()]`, "tiny"),
